@@ -415,15 +415,27 @@ Definition call_finish (e : env) (dst : option name) (saved : list nat) (result 
   | Some _, None => Er EStuck
   end.
 
-(* mayElideArgCopy (compiler.go, 91b5d4a): the caller hands its own storage to a parameter the callee only
-   reads only for (a part of) a local variable of the running activation — not a global, not what a
-   Referenz parameter is bound to — that is not also passed by Referenz in the same call *)
+(* mayElideArgCopy (compiler.go, 91b5d4a + the sibling-argument repair): the caller hands its own storage to a
+   parameter the callee only reads only for (a part of) a local variable of the running activation — not a
+   global, not what a Referenz parameter is bound to — that NO OTHER argument of the same call mentions
+   (arguments are evaluated in parameter order: a later argument may pass the variable by Referenz to a nested
+   call, or to this call).  The argument itself mentions x, so "no other" = exactly one mention in `all`. *)
 Definition is_ref_of (x : name) (a : arg) : bool := match a with ARef y => Nat.eqb y x | AVal _ => false end.
+Fixpoint expr_mentions (x : name) (e : expr) : bool :=
+  match e with
+  | EInt _ | ELit _ => false
+  | EVar y => Nat.eqb y x
+  | ECat a b | EIdx a b => expr_mentions x a || expr_mentions x b
+  | ELen a => expr_mentions x a
+  end.
+Definition arg_mentions (x : name) (a : arg) : bool :=
+  match a with ARef y => Nat.eqb y x | AVal e => expr_mentions x e end.
 Definition may_elide (e : env) (all : list arg) (ex : expr) (st : state) : bool :=
   match ex with
   | EVar x =>
       match lookup e x with
       | Some a => Nat.leb (fbase st) a && negb (existsb (is_ref_of x) all)
+                  && Nat.leb (length (filter (arg_mentions x) all)) 1
       | None => false
       end
   | _ => false
